@@ -128,9 +128,13 @@ def polyline(prog, rep):
     IT = PRIM + "polyline::styled::StyledPixelsIterator"
     nw = prog.method1(IT, "new", None)
     dt = prog.fn_by_path(PRIM + "polyline::styled::draw_thick")
-    a1 = [s for s in sites(nw, "new") if s[2]["f"].get("path", "").endswith("ScanlineIterator::<'a>::new") or "scanline_iterator::ScanlineIterator" in s[2]["f"].get("path", "")]
-    a2 = [s for s in sites(dt, "new") if "scanline_iterator::ScanlineIterator" in s[2]["f"].get("path", "")]
-    ok = len(a1) == 1 and len(a2) == 1 and [anon(x) for x in a1[0][1]] == [anon(x) for x in a2[0][1]] == [("param", 1, None), ("param", 2, None)]
+    # call sites followed through helpers introduced by an edit (arguments expressed over the renderer's own parameters)
+    from mirq.canon import Canon
+    cn_ = Canon(prog)
+    is_gen = lambda st: "scanline_iterator::ScanlineIterator" in (st.t["f"].get("resolved") or st.t["f"]).get("path", "")
+    a1 = [st for st in cn_.sites(nw, "new") if is_gen(st)]
+    a2 = [st for st in cn_.sites(dt, "new") if is_gen(st)]
+    ok = len(a1) == 1 and len(a2) == 1 and [anon(strip_refs(x)) for x in a1[0].args] == [anon(strip_refs(x)) for x in a2[0].args] == [("param", 1, None), ("param", 2, None)]
     rep.check(ok, "R01.2", "polyline:generator-args", "thick polylines must be scanned by ScanlineIterator::new(polyline, style) in both renderers", at=dt.span, fn=dt.path)
     ds = [f for f in prog.fns.values() if f.name == "draw_styled" and (PRIM + "polyline::styled::") in f.id]
     if len(ds) != 1:
@@ -249,9 +253,31 @@ def image_paths(prog, rep):
     rep.check(ok, "R01.5", "Image::draw", "Image::draw must draw the image drawable on target.translated(self.offset); found %s" % ([show(x, maxd=4) for x in s[0][1]] if s else "?"), at=dr.span, fn=dr.path)
     IR = "embedded_graphics::image::image_raw::ImageRaw"
     d2 = prog.method1(IR, "draw", "embedded_graphics_core::image::ImageDrawable")
-    s = sites(d2, "fill_contiguous")
-    ok = len(s) == 1 and s[0][1][0] == P(2, "target") and match(s[0][1][1], ("call", "*::bounding_box", "_", (P(1, "self"),))) is not None
-    if ok:
-        m = match(s[0][1][2], ("call", "*ContiguousPixels::<'a, C, O>::new", "_", (P(1, "self"), "?size", ("const", 0), "?skip")))
-        ok = m is not None and m["?size"] == ("field", P(1, "self"), field_index(prog, IR, "size"))
+    # path summaries with helpers introduced by an edit and the image's own bounding_box()/size() inlined: the one effect
+    # is fill_contiguous(target, Rectangle(zero, self.size), ContiguousPixels::new(self, self.size, 0, skip)), returned
+    from mirq.paths import Paths, Unsupported, passes_result
+    size_f = ("field", P(1, "self"), field_index(prog, IR, "size"))
+    box = ("call", "*Rectangle::new", "_", (("call", "*Point::zero", "_", ()), size_f))
+    ok, s = True, []
+    try:
+        summs = Paths(prog, inline=lambda g: prog.is_new(g) or (g.name in ("bounding_box", "size") and g.kind == "assoc_fn")).of(d2)
+        ok = len(summs) >= 1
+        for sm in summs:
+            fc = [e[1] for e in sm.effects if e[0] == "call" and e[1][1].split("::")[-1] == "fill_contiguous"]
+            if len(fc) != 1 or len(sm.effects) != 1 or not passes_result(sm, fc[0]):
+                ok = False
+                continue
+            a_ = [strip_refs(x) for x in fc[0][3]]
+            s = [(None, a_)]
+            m = match(a_[2], ("call", "*ContiguousPixels::<'a, C, O>::new", "_", (P(1, "self"), "?size", ("const", 0), "?skip")))
+            is_size = lambda t: strip_refs(t) == size_f or match(strip_refs(t), ("call", "*OriginDimensions::size", "_", (P(1, "self"),))) is not None \
+                or match(strip_refs(t), ("call", "*OriginDimensions>::size", "_", (P(1, "self"),))) is not None
+            mb = match(a_[1], ("call", "*Rectangle::new", "_", (("call", "*Point::zero", "_", ()), "?bs")))
+            is_box = (mb is not None and is_size(mb["?bs"])) or match(a_[1], ("call", "*::bounding_box", "_", (P(1, "self"),))) is not None
+            ok = ok and a_[0] == P(2, "target") and is_box and m is not None and is_size(m["?size"])
+    except Unsupported as e:
+        ok = False
+    # the image's size() is its stored size
+    sz = prog.method1(IR, "size", "embedded_graphics_core::geometry::OriginDimensions")
+    rep.check(strip_refs(Origins(sz).return_origin()) == size_f, "R01.5", "ImageRaw::size", "ImageRaw::size() must return the stored size", at=sz.span, fn=sz.path, nontrivial=False)
     rep.check(ok, "R01.5", "ImageRaw::draw", "ImageRaw::draw must be fill_contiguous(&self.bounding_box(), ContiguousPixels::new(self, self.size, 0, row_skip)); found %s" % ([show(x, maxd=4) for x in s[0][1][1:]] if s else "?"), at=d2.span, fn=d2.path)
